@@ -132,9 +132,13 @@ CORPUS = {
             'from setuptools import setup\n\nsetup(\n    name="demo",\n    install_requires=[\n        "requests",\n        "flask>=2.0",\n    ],\n)\n',
             'from setuptools import setup, find_packages\n\n# packaging\nsetup(name="demo", packages=find_packages(), install_requires=["requests"])\n',
             'import setuptools\n\nsetuptools.setup(\n    name="demo",\n    install_requires=[\n        "requests; python_version > \'3.8\'",  # marker\n        "rich[jupyter]",\n    ],\n    extras_require={"dev": ["pytest"]},\n)\n',
+            'from setuptools import setup\r\n\r\nsetup(\r\n    name="demo",\r\n    install_requires=[\r\n        "requests",\r\n    ],\r\n)\r\n',
+            "from setuptools import setup\n\nsetup(\n    name='demo',\n    install_requires=[\n        'requests',\n    ],\n)",
         ],
-        "same": ['from setuptools import setup\n\nsetup(\n    name="demo",\n    install_requires=[\n        "{PKG}",\n    ],\n)\n'],
-        "spelled": ['from setuptools import setup\n\nsetup(name="demo", install_requires=["requests", "{ALT}>=0.1"])\n'],
+        "same": ['from setuptools import setup\n\nsetup(\n    name="demo",\n    install_requires=[\n        "{PKG}",\n    ],\n)\n',
+                 "from setuptools import setup\n\nsetup(name='demo', install_requires=['requests', '{PKG}>=0.0.1'])\n"],
+        "spelled": ['from setuptools import setup\n\nsetup(name="demo", install_requires=["requests", "{ALT}>=0.1"])\n',
+                    "from setuptools import setup\n\nsetup(name='demo', install_requires=['{ALT}'])\n"],
         "unwritable": ['from setuptools import setup\n\nsetup(name="demo")\n', 'from setuptools import setup\n\nsetup(name="demo", install_requires=[])\n'],
     },
     "requirements.txt": {
@@ -155,6 +159,8 @@ CORPUS = {
             "[metadata]\nname = demo\n\n[options]\ninstall_requires =\n    requests\n    flask>=2.0\n",
             "[metadata]\nname = demo\n\n[options]\n# deps\ninstall_requires = requests, flask>=2.0\n\n[options.extras_require]\ndev = pytest\n",
             "[metadata]\nname = demo\n\n[options]\ninstall_requires =\n    requests\n    flask\npython_requires = >=3.8\n\n[options.extras_require]\ndev =\n    flask\n",
+            "[metadata]\r\nname = demo\r\n\r\n[options]\r\ninstall_requires =\r\n    requests\r\n    flask>=2.0\r\n",
+            "[metadata]\nname = demo\n\n[options]\ninstall_requires =\n    requests",
         ],
         "same": ["[metadata]\nname = demo\n\n[options]\ninstall_requires =\n    requests\n    {PKG}\n"],
         "spelled": ["[metadata]\nname = demo\n\n[options]\ninstall_requires =\n    {ALT}>=0.1\n    requests\n"],
